@@ -1447,6 +1447,17 @@ func ruleC07FunctionOnThunk(c *Ctx) {
 		}
 		n++
 		arg := fnCall.Args[1]
+		// the value that is tested for being a lazy table is what the selectors resolved to, not the document they were
+		// read from (round 11: `data.(func() (any, error))` for `rs.(…)` — the same type; `mix=>t` over a CTE hands the
+		// unevaluated closure to the function)
+		for k := range p.Asg {
+			kt := p.KeyTerm[k]
+			if kt != nil && kt.Op == "ext" && kt.Name == "1" && kt.Args[0].Op == "assertok" && (kt.Args[0].Name == "func() (any, error)" || kt.Args[0].Name == "CteEvaluation") {
+				if op := kt.Args[0].Args[0]; op.Op == "param" {
+					why = append(why, "the test for a lazy table looks at the parameter "+op.Name+", the document the selectors are read from, not at the value they resolved to: `mix=>cte` hands the unevaluated table to the function")
+				}
+			}
+		}
 		if x := ext0(arg); x != nil && x.Op == "call" && x.Name == "dyn" {
 			continue // the result of calling the thunk
 		}
